@@ -58,6 +58,7 @@ func gen(a Args, out *Out) {
 		{6, func(r *Rng) (string, connsim.Cfg) { return connsim.FreeStream(r, false) }},
 		{10, connsim.FreeImmediate},
 		{6, connsim.WriteFail},
+		{12, connsim.FreeEnv},
 	}
 	var jobs []job
 	var ins []Sx
@@ -65,6 +66,9 @@ func gen(a Args, out *Out) {
 		r := rng.Fork()
 		for k := 0; k < p.n*mult; k++ {
 			kind, c := p.f(r)
+			for kind == "free-env-nontcp-unread" { // C03's known limitation (no half-close on a generic net.Conn), not a shutdown-safety matter
+				kind, c = p.f(r)
+			}
 			cc := c
 			jobs = append(jobs, job{kind, &cc})
 			ins = append(ins, c.Sx())
@@ -99,7 +103,7 @@ func gen(a Args, out *Out) {
 				}
 			}
 			for _, it := range c.Input {
-				out.Count([]string{"peer:frame", "peer:garbage", "peer:eof", "peer:rst", "peer:truncated", "peer:badlen"}[it.Kind])
+				out.Count([]string{"peer:frame", "peer:garbage", "peer:eof", "peer:rst", "peer:truncated", "peer:badlen", "peer:split-frame", "peer:coalesced", "peer:coalesced"}[it.Kind])
 			}
 			if c.Ecap < 0 {
 				out.Count("errchan:nil")
